@@ -280,7 +280,7 @@ sequence of calls: re-creating a missing entry in `storeResult` (worker.go:369, 
 and `NotifyResult` is invisible in the entry-less view (`DMon`) that the transition system uses -/
 theorem direct_spec_of_model (workers : Nat) (ops : List DOp) :
     directSpec workers ops (drun workers {} ops) = true := by
-  have h0 : DRel ({} : DState) ({} : DMon) := ⟨fun _ => rfl, fun _ => rfl, rfl, rfl⟩
+  have h0 : DRel ({} : DState) ({} : DMon) := ⟨fun _ => rfl, fun _ => rfl, rfl, rfl, fun _ => rfl⟩
   obtain ⟨m, hm⟩ := drel_run workers ops h0
   simp [directSpec, hm]
 
@@ -370,6 +370,72 @@ example :
     directSpec 1 [.finish 7 2, .results 7] [.finished 0, .vals [2, 2]] = false ∧
     directSpec 1 [.remove 7, .finish 7 2, .poll 7] [.unit, .finished 0, .token false] = false ∧
     directSpec 1 [.qPop] [.popped (some 0)] = false := by
+  decide
+
+/-! ### VOLUME: any number of groups on one worker group, any number of results under one wake-up
+
+The reader of `RunJobs` sleeps on the channel OBJECT it fetched for its group and fetches the group's
+channel again only after a wake-up; `Results` is called once per wake-up.  Two facts of the store carry
+"`RunJobs` returns" from a handful of callers and jobs to crowds of callers and thousands of results; both
+are theorems of the store model for every history of calls, and both are compared call by call with the
+real group (`watch` / `pollHeld` calls, long result lists: harness/c14_direct_test.go). -/
+
+/-- WAITING IS NOT FINISHED.  A client fetched the channel of group `g` and a result of `g` was stored.
+Whatever happens then — calls on any number of other groups, in any state, `RemoveGroup` of every one of
+them, further jobs and results of `g` itself — short of `RemoveGroup(g)` and of a receive from `g`'s
+channel: the channel the client kept still is the group's channel and the token is on it (the parked
+reader wakes up). -/
+theorem watcher_woken (workers : Nat) (d : DState) (g v : Nat) (mid : List DOp)
+    (hmid : ∀ op ∈ mid, op ≠ .remove g ∧ op ≠ .poll g ∧ op ≠ .pollHeld g) :
+    drun workers d ([.watch g, .finish g v] ++ mid ++ [.pollHeld g]) =
+      drun workers d ([.watch g, .finish g v] ++ mid) ++ [.token true] := by
+  have hw : Woken (dend workers d ([.watch g, .finish g v] ++ mid)) g := by
+    rw [dend_append]
+    exact woken_run workers mid (woken_after_watch_finish workers d g v) hmid
+  rw [drun_append]
+  obtain ⟨hh, hn⟩ := hw
+  simp only [List.cons_append, List.nil_append] at hh hn ⊢
+  simp [drun, dstep, pollHeldStep, hh, hn]
+
+/-- `RemoveGroup(k)` touches group `k` only: the channel kept for any other group stays attached, its token
+and its stored results stay — with 2 groups registered or with 2000 -/
+theorem remove_touches_own_group_only (workers : Nat) (d : DState) {g k : Nat} (hk : g ≠ k) :
+    ((dstep workers d (.remove k)).2.held g = d.held g) ∧
+    ((dstep workers d (.remove k)).2.store.notify g = d.store.notify g) ∧
+    ((dstep workers d (.remove k)).2.store.data g = d.store.data g) := by
+  exact ⟨by simp [dstep, setAt_other _ _ hk], by simp [dstep, Store.remove, setAt_other _ _ hk],
+    by simp [dstep, Store.remove, setAt_other _ _ hk]⟩
+
+/-- ONE CALL OF `Results` TAKES EVERYTHING.  However many results were stored for the group since the last
+call (one notification covers them all: the channel has capacity 1), the next `Results` hands out all of
+them, oldest first, after what was stored before -/
+theorem results_takes_all (workers : Nat) (d : DState) (g : Nat) (vs : List Nat) :
+    drun workers d (vs.map (.finish g) ++ [.results g]) =
+      drun workers d (vs.map (.finish g)) ++ [.vals (((d.store.data g).getD []).reverse ++ vs)] := by
+  rw [drun_append]
+  simp [drun, dstep, Store.results, dend_finishes_data]
+
+/-- … and leaves nothing behind: a second call finds the group empty -/
+theorem results_leaves_nothing (workers : Nat) (d : DState) (g : Nat) :
+    drun workers d [.results g, .results g] = [.vals ((d.store.data g).getD []).reverse, .vals []] := by
+  simp [drun, dstep, Store.results]
+
+/-- the hypotheses are met and the monitor tells the difference: 5 groups, the reader of group 2 is parked,
+groups 1, 3, 4, 5 are removed, a result of group 2 arrives: the reader is woken; an implementation that sweeps
+the waiting group along with another one (the reader is left on a dead channel), or whose `Results` hands out
+only a part of a list, is rejected -/
+example :
+    let ops : List DOp := [.submit 1 1, .submit 2 2, .submit 3 3, .watch 2, .finish 1 1, .results 1, .remove 1,
+      .remove 3, .remove 4, .remove 5, .finish 2 2, .pollHeld 2, .results 2]
+    drun 3 {} ops = [.accepted 1, .accepted 2, .accepted 3, .unit, .finished 2, .vals [1], .unit, .unit, .unit, .unit,
+      .finished 1, .token true, .vals [2]] ∧
+    directSpec 3 ops (drun 3 {} ops) = true ∧
+    directSpec 3 [.submit 1 1, .submit 2 2, .watch 2, .remove 1, .finish 2 2, .pollHeld 2]
+      [.accepted 1, .accepted 2, .unit, .unit, .finished 1, .token false] = false ∧
+    directSpec 3 [.finish 1 1, .finish 1 2, .finish 1 3, .results 1] [.finished 0, .finished 0, .finished 0, .vals [1, 2]] = false ∧
+    -- the channel of a group that WAS removed is dead: the late result goes to a new channel
+    drun 1 {} [.submit 7 1, .watch 7, .remove 7, .finish 7 1, .pollHeld 7, .poll 7] =
+      [.accepted 1, .unit, .unit, .finished 0, .token false, .token true] := by
   decide
 
 /-! ### the pre-fix variant gets stuck -/
